@@ -160,12 +160,24 @@ class Interp:
             idx = mask
         elif kind == "index_array":
             idx = rng.integers(0, n, size=1 + b % (2 * n))
+        elif kind in ("mask_list", "index_list"):
+            if m["xp"] == "jax":
+                return  # jax rejects list indices by design
+            if kind == "mask_list":
+                mask = rng.random(n) < 0.5
+                if not mask.any():
+                    mask[a % n] = True
+                idx = mask
+            else:
+                idx = rng.integers(0, n, size=1 + b % (2 * n))
         else:
             raise ValueError(kind)
         XP = xp_of(m["xp"])
         idx_in = idx
         if kind == "mask":
             idx_in = XP.asarray(mask) if m["xp"] != "numpy" and seed % 2 else mask
+        elif kind in ("mask_list", "index_list"):
+            idx_in = [bool(v) for v in idx] if kind == "mask_list" else [int(v) for v in idx]  # plain Python lists
         out = obj[idx_in]
         mm = self._sel(m, idx)
         self._compare(out, mm, f"select:{kind}")
@@ -238,7 +250,7 @@ def make_machine(interp_factory, workdir, col):
         def create(self, cls, xp, dtype, n, d, fields, evidence, seed):
             self.do("create", cls=cls, xp=xp, dtype=dtype, n=n, d=d, fields=list(fields), evidence=evidence, seed=seed)
 
-        @rule(src=st.integers(0, 20), kind=st.sampled_from(["slice", "step_slice", "mask", "index_array"]), a=st.integers(0, 20), b=st.integers(0, 20), seed=st.integers(0, 1000))
+        @rule(src=st.integers(0, 20), kind=st.sampled_from(["slice", "step_slice", "mask", "index_array", "mask_list", "index_list"]), a=st.integers(0, 20), b=st.integers(0, 20), seed=st.integers(0, 1000))
         def select(self, src, kind, a, b, seed):
             self.do("select", src=src, kind=kind, a=a, b=b, seed=seed)
 
